@@ -494,11 +494,29 @@ package block
 //@   ensures [future-msg] res.Code == coreda.StatusHeightFromFuture ==> msgHas(err, coreda.ErrHeightFromFuture)
 
 //@ func (m *Manager) handlePotentialHeader(ctx, bz, daHeight) (handled)
+//@   property C03 C07 C09
+//@   nopanic
+//@   requires [wiring] m.metrics != nil && m.headerCache != nil && m.logger != nil && ctx != nil && len(m.genesis.ProposerAddress) > 0
+//@   observe iu := call isUsingExpectedSingleSequencer
+//@   observe sdi := call SetDAIncluded
 //@   modifies m.headerCache.daInc, m.headerCache.daIncHas
-//@   ensures [any] true
+//@   ensures [mark-genuine-only] sdi ==> iu && iu.res0 && sdi.count == 1 && sdi.arg0 == m.headerCache && sdi.arg2 == daHeight
+//@                       && sdi.arg1 == hexstr(HashHdr(HdrOf(iu.arg1)))
+//@   ensures [emit-genuine-only] sendCount("headerInCh") <= 1 && (sendCount("headerInCh") == 1 ==> iu && iu.res0 && sent("headerInCh").Header == iu.arg1 && sent("headerInCh").DAHeight == daHeight)
+//@   ensures [emit-unseen] iu && iu.res0 && !m.headerCache.seen[hexstr(HashHdr(HdrOf(iu.arg1)))] && !ctxDone(ctx) ==> sendCount("headerInCh") == 1
+//@   ensures [genuine-is-handled] iu && iu.res0 ==> handled
+
 //@ func (m *Manager) handlePotentialData(ctx, bz, daHeight)
+//@   property C03 C07 C09
+//@   nopanic
+//@   requires [wiring] m.metrics != nil && m.dataCache != nil && m.logger != nil && ctx != nil && len(m.genesis.ProposerAddress) > 0
+//@   observe iv := call isValidSignedData
+//@   observe sdi := call SetDAIncluded
 //@   modifies m.dataCache.daInc, m.dataCache.daIncHas
-//@   ensures [any] true
+//@   ensures [mark-genuine-only] sdi ==> iv && iv.res0 && sdi.count == 1 && sdi.arg0 == m.dataCache && sdi.arg2 == daHeight
+//@                       && sdi.arg1 == hexstr(CommitTxs(TxsId(iv.arg1.Data.Txs)))
+//@   ensures [emit-genuine-only] sendCount("dataInCh") <= 1 && (sendCount("dataInCh") == 1 ==> iv && iv.res0 && sent("dataInCh").DAHeight == daHeight)
+//@   ensures [emit-unseen] iv && iv.res0 && !m.dataCache.seen[hexstr(CommitTxs(TxsId(iv.arg1.Data.Txs)))] && !ctxDone(ctx) ==> sendCount("dataInCh") == 1
 
 //@ func (m *Manager) processNextDAHeaderAndData(ctx) (err)
 //@   property C09
